@@ -72,11 +72,23 @@ def run_nlc(case, ctx):
     d = X.shape[1]
     draws = int(rng.randint(1, 6))
     cols = ["v%d" % i for i in range(d)] if case["sub"] % 2 else ["b", "a", "zz", "c", "y", "k"][:d]
+    if case["sub"] % 5 == 3:
+        X[:, 0] = X[:, 0].astype(numpy.float32)      # representable: the frame below stores this column as float32
     df = pandas.DataFrame(X.copy(), columns=cols)
     if case["sub"] % 3 == 0:
         df.index = numpy.arange(100, 100 + len(df)) if case["sub"] % 2 else numpy.random.RandomState(
             case["sub"] % 997).permutation(len(df))
-    cfg = {"table": kind, "model": mname, "n": X.shape[0], "d": d, "draws": draws, "sub": case["sub"]}
+    colkind = "float64"
+    if case["sub"] % 5 == 1 and d >= 2:
+        # a numeric column stored as objects (after .T, .astype(object), a mixed-type CSV): still a variable
+        df[cols[1]] = df[cols[1]].astype(object)
+        colkind = "one-object-column"
+    elif case["sub"] % 5 == 3:
+        df = df.astype({cols[0]: numpy.float32})
+        colkind = "one-float32-column"
+    cfg = {"table": kind, "model": mname, "n": X.shape[0], "d": d, "draws": draws, "sub": case["sub"],
+           "frame_columns": colkind}
+    ctx.cls("frame-columns=" + colkind)
     ctx.cls("table=" + kind)
     ctx.cls("model=" + mname)
     K = "C18/nlc/"
